@@ -228,6 +228,10 @@ def _sizeguard_traces(chk: Check, rng: random.Random, quick: bool) -> None:
                         continue
                     for ck in cks:
                         rec.append(_record_sizeguard(kind, path, limit, maxread, frames, list(ck), rng))
+                    if path == "buf":
+                        # what a transport with data queued does: every read fills the window it is offered - which must not be
+                        # bigger than the configured read size (the margin "one read" of the property is that size)
+                        rec.append(_record_sizeguard(kind, path, limit, maxread, frames, [10**9] * (total + 2), rng))
     slim = [{"par": t["par"], "frames": t["frames"], "events": t["events"]} for t in rec]
     res = traces.validate("SizeGuardTrace", slim, cfg_text=SG_TRACE_CFG, parallel=12, chunk=1500)
     chk.traces += len(rec)
